@@ -742,13 +742,34 @@ class _SeqBase(Sym):
     def _elem(self, term):
         raise NotImplementedError
 
+    def _slice_terms(self, k):
+        """(start, length) z3 terms of a step-1 slice; clamping is dropped when the bounds are provably inside."""
+        n = z3.Length(self.t)
+        if k.step is not None and concrete_int(k.step) != 1:
+            raise Unsupported('extended slice on symbolic sequence')
+        lo_c, hi_c = concrete_int(k.start) if k.start is not None else 0, concrete_int(k.stop) if k.stop is not None else None
+        neg = (lo_c is not None and lo_c < 0) or (hi_c is not None and hi_c < 0)
+        if not neg and not isinstance(self, SStr):
+            lo_t = z3.IntVal(0) if k.start is None else as_int_term(k.start)
+            hi_t = n if k.stop is None else as_int_term(k.stop)
+            try:
+                ctx = _ctx()
+            except RuntimeError:
+                ctx = None
+            if ctx is not None and proves(ctx, z3.And(lo_t >= 0, lo_t <= hi_t, hi_t <= n)):
+                return z3.simplify(lo_t), z3.simplify(hi_t - lo_t), True
+        s_, ln = _clamp_slice(n, k.start, k.stop)
+        return s_, ln, False
+
     def __getitem__(self, k):
         n = z3.Length(self.t)
         if isinstance(k, slice):
-            if k.step is not None and concrete_int(k.step) != 1:
-                raise Unsupported('extended slice on symbolic sequence')
-            s, ln = _clamp_slice(n, k.start, k.stop)
-            return type(self)(z3.SubSeq(self.t, s, ln))
+            s_, ln, exact = self._slice_terms(k)
+            if exact:
+                r = rope_subseq(self.t, s_, ln)
+                if r is not None:
+                    return type(self)(r)
+            return type(self)(z3.SubSeq(self.t, s_, ln))
         ck = concrete_int(k)
         if ck is not None and ck >= 0 and not isinstance(self, SStr):
             pre = prefix_units(self.t, ck + 1)
@@ -760,6 +781,60 @@ class _SeqBase(Sym):
             from .interp import py_raise
             py_raise(IndexError('index out of range'))
         return self._elem(self.t[it])
+
+
+def _segments(t):
+    """Top-level concatenation children of a sequence term with their length terms."""
+    out = []
+
+    def walk(e):
+        k = e.decl().kind()
+        if k == z3.Z3_OP_SEQ_EMPTY:
+            return
+        if k == z3.Z3_OP_SEQ_CONCAT:
+            for c in e.children():
+                walk(c)
+            return
+        if k == z3.Z3_OP_SEQ_UNIT:
+            out.append((e, z3.IntVal(1)))
+            return
+        out.append((e, z3.Length(e)))
+    walk(t)
+    return out
+
+
+def _is_zero(t):
+    s = z3.simplify(t)
+    return z3.is_int_value(s) and s.as_long() == 0
+
+
+def rope_subseq(t, start, length):
+    """SubSeq(t, start, length) resolved structurally when start/length fall on segment boundaries of the
+    concatenation t (offsets compared after arithmetic simplification); None if they do not."""
+    segs = _segments(t)
+    if not segs:
+        return None
+    off = z3.IntVal(0)
+    i = 0
+    while i < len(segs) and not _is_zero(start - off):
+        off = off + segs[i][1]
+        i += 1
+        if i > 400:
+            return None
+    if not _is_zero(start - off):
+        return None
+    acc = z3.IntVal(0)
+    picked = []
+    j = i
+    while not _is_zero(length - acc):
+        if j >= len(segs):
+            return None
+        picked.append(segs[j][0])
+        acc = acc + segs[j][1]
+        j += 1
+    if not picked:
+        return z3.Empty(t.sort())
+    return picked[0] if len(picked) == 1 else z3.Concat(*picked)
 
 
 def prefix_units(t, limit):
@@ -882,11 +957,9 @@ class SSeq(_SeqBase):
 
     def __getitem__(self, k):
         if isinstance(k, slice):
-            n = z3.Length(self.t)
-            if k.step is not None and concrete_int(k.step) != 1:
-                raise Unsupported('extended slice on symbolic sequence')
-            s, ln = _clamp_slice(n, k.start, k.stop)
-            return SSeq(z3.SubSeq(self.t, s, ln), self.wrap, self.unwrap)
+            s_, ln, exact = self._slice_terms(k)
+            r = rope_subseq(self.t, s_, ln) if exact else None
+            return SSeq(r if r is not None else z3.SubSeq(self.t, s_, ln), self.wrap, self.unwrap)
         return _SeqBase.__getitem__(self, k)
 
 
